@@ -18,7 +18,10 @@ from harness import spell
 INV = ["PointRefines", "Emit"]
 FIELDS = ["u", "v", "w", "f3", "f4", "f5", "f6", "f7"]
 # single names / indexes (also negative), contiguous lists, lists with gaps (one gap, two gaps, not starting at the first field)
-SELS = ["v", 2, ["u", "w"], [0, 1, 2], [1, 4, 6], -1, ["v", "f5"], [0, 3, 5, 7], "f7", [2, 3, 6]]
+SELS = ["v", 2, ["u", "w"], [0, 1, 2], [1, 4, 6], -1, ["v", "f5"], [0, 3, 5, 7], "f7", [2, 3, 6],
+        # lists that start at their lowest and end at their highest field with the inner ones out of order or repeated (the reader
+        # honours them in the order asked): as many entries as the span they cover, and not
+        [0, 2, 1, 3], ["v", "v", "f3"], ["u", "f3", "v", "f4"], [2, 4, 3, 5]]
 
 
 def models(tier):
